@@ -53,6 +53,17 @@ TAccepted ==
                ELSE NewTransportEff(now) /\ viol' = viol /\ delayUntil' = now /\ pc' = "run" /\ deaf' = FALSE
     /\ UNCHANGED <<now, cause, waitFrom>> /\ KeepP
 
+\* the neighbour removed (its api down / fsm IDLE / close / fsm IDLE lines are ERemove's one step) and configured again
+TRemove ==
+    /\ E.e = "remove" /\ Line /\ absorbing' = TRUE
+    /\ fsm' = "IDLE" /\ apiUp' = FALSE /\ open' = FALSE /\ inq' = <<>> /\ leftAt' = -1 /\ tear' = 0
+    /\ UNCHANGED <<sentOpen, gotOpen, gotKA, hold, fault, mayFault, closing, notified, lastRx, lastKA, connAt>>
+    /\ pc' = "gone" /\ deaf' = FALSE /\ UNCHANGED <<now, cause, waitFrom, delayUntil, viol>> /\ KeepP
+TReadd ==
+    /\ E.e = "readd" /\ Line /\ absorbing' = FALSE /\ pc = "gone"
+    /\ pc' = "run" /\ delayUntil' = now
+    /\ UNCHANGED <<svars, now, cause, deaf, waitFrom, viol>> /\ KeepP
+
 \* system lines: the action of ExaPeerLoop the event names, at the current pc
 TFsm ==
     /\ E.e = "fsm" /\ ~absorbing /\ Line /\ UNCHANGED absorbing
@@ -91,7 +102,7 @@ Silent ==
        \/ (fsm \in {"IDLE", "ACTIVE"} /\ SDown)
        \/ (~open /\ SClose)
 
-TNext == l <= Len(Tr) /\ (TBegin \/ TTime \/ TRx \/ TTeardown \/ TNoise \/ TConnOk \/ TConnFail \/ TOffered \/ TAbsorb \/ TAccepted
+TNext == l <= Len(Tr) /\ (TBegin \/ TTime \/ TRx \/ TTeardown \/ TNoise \/ TConnOk \/ TConnFail \/ TOffered \/ TAbsorb \/ TAccepted \/ TRemove \/ TReadd
                           \/ TFsm \/ TTx \/ TGot \/ TApi \/ TClose \/ Silent)
 TInit == PInit /\ l = 1 /\ absorbing = FALSE
 
